@@ -1,2 +1,3 @@
 pub mod alpha;
+pub mod group;
 pub mod tt;
